@@ -75,6 +75,11 @@ def make_case(case, seed, thorough):
         spec.cert_trap = k % 3 == 1
         spec.shuffle_exts = k % 2 == 0
         spec.server_ext = k % 6 != 1
+        if k % 5 in (2, 4):     # full handshakes with client authentication; server flight of five messages
+            spec.client_auth = True
+            spec.group_client_flight = [(1, 1, 1), (3,), (2, 1), (1, 2)][(k // 5) % 4]
+            spec.group_server_flight = [(1, 1, 1, 1, 1), (5,), (2, 3), (1, 3, 1), (4, 1), (3, 2)][(k // 5) % 6]
+        spec.ch_pad = [0, 0, 1500, 0, 0, 0, 3000][k % 7]
         segkind = ["mss", "random", "whole", "records"][k % 4]
         cl = {"pattern": "matrix", "nrec": len(spec.app)}
     else:
@@ -119,7 +124,8 @@ def make_case(case, seed, thorough):
     elif r < 0.3:
         mapargs = [f"{sport}:{tcpcap.map_target(rng)}"]
         extra += ["-m"] + mapargs
-    cls = [suites.VNAME[v], f"{code:04X}", "resumed" if spec.resumed else "full", "g" + "".join(map(str, spec.group_server_flight)),
+    shape = "resumed" if spec.resumed else ("cauth-g" + "".join(map(str, spec.group_client_flight)) if spec.client_auth else "full")
+    cls = [suites.VNAME[v], f"{code:04X}", shape + ("+bighello" if spec.ch_pad >= 1300 else ""), "g" + "".join(map(str, spec.group_server_flight)),
            cl["pattern"], segkind, "v6" if ep.v6 else "v4"]
     return dict(rng=rng, spec=spec, conn=conn, ep=ep, items=items, flows=[fl], extra=extra, mapargs=mapargs, cls=cls, segkind=segkind)
 
@@ -132,7 +138,7 @@ def eval_case(case, seed, thorough):
     mon = monitors.TlsStateMonitor()
     res, files, argv = e2e.run_capture(cap, keys, c["extra"], child_setup=mon.install)
     nbytes = len(conn.truth["c"]) + len(conn.truth["s"])
-    out = {"cls": c["cls"], "nontrivial": nbytes > 0, "tags": [f"ver:{c['cls'][0]}", f"seg:{c['segkind']}", f"mode:{conn.params['mode']}"],
+    out = {"cls": c["cls"], "nontrivial": nbytes > 0, "tags": [f"ver:{c['cls'][0]}", f"seg:{c['segkind']}", f"mode:{conn.params['mode']}", f"shape:{c['cls'][2]}"],
            "sample": {"case": case["id"], "spec": e2e.describe_spec(c["spec"]), "endpoints": ep.describe(), "segmentation": c["segkind"],
                       "packets": len(c["items"]), "args": c["extra"], "sent": {"c": len(conn.truth["c"]), "s": len(conn.truth["s"])}}}
     fail = e2e.run_failed(res)
